@@ -666,6 +666,8 @@ class MethodTr:
             self.uses_fuel = True
             c = self.cond(st.test)
             return '(whileLoop (fun s => %s)\n%s lfuel)' % (lift(c), self.block(st.body))
+        if isinstance(st, ast.For):
+            return self.for_stmt(st)
         if isinstance(st, ast.Break):
             return 'brk'
         if isinstance(st, ast.Continue):
@@ -691,6 +693,76 @@ class MethodTr:
                 raise Unsupported(st, 'del of several targets')
             return self.delete(st.targets[0], st)
         raise Unsupported(st, 'statement %s' % type(st).__name__)
+
+    def _iter_of_self(self):
+        """rule L1: the class's `__iter__` is exactly `return (v for v in self.<A> if v is not <sentinel>)`, `<A>` a
+        declared list attribute no method rebinds -> (attribute, Lean predicate `keep`)"""
+        it = [n for n in self.cdef.body if isinstance(n, ast.FunctionDef) and n.name == '__iter__']
+        if len(it) != 1 or it[0].decorator_list or len(it[0].args.args) != 1:
+            return None
+        body = [x for x in it[0].body if not (isinstance(x, ast.Expr) and isinstance(x.value, ast.Constant))]
+        sn = it[0].args.args[0].arg
+        if len(body) != 1 or not isinstance(body[0], ast.Return) or not isinstance(body[0].value, ast.GeneratorExp):
+            return None
+        g = body[0].value
+        if len(g.generators) != 1:
+            return None
+        c = g.generators[0]
+        if c.is_async or not isinstance(c.target, ast.Name) or not isinstance(g.elt, ast.Name) or g.elt.id != c.target.id \
+                or not _self_attr(c.iter, sn) or len(c.ifs) != 1:
+            return None
+        attr = c.iter.attr
+        if self.state.get(attr) != LVAL or attr in self.rebound:
+            return None
+        t = c.ifs[0]
+        if not (isinstance(t, ast.Compare) and len(t.ops) == 1 and isinstance(t.ops[0], ast.IsNot)
+                and isinstance(t.left, ast.Name) and t.left.id == c.target.id
+                and isinstance(t.comparators[0], ast.Name) and t.comparators[0].id in self.cls.get('sentinels', ())):
+            return None
+        return attr, '(fun v => !Val.isSentinel v)'
+
+    def for_stmt(self, st: ast.For):
+        if st.orelse:
+            raise Unsupported(st, 'for/else')
+        for n in ast.walk(st):
+            if isinstance(n, (ast.While, ast.For)) and n is not st:
+                raise Unsupported(n, 'nested loop')
+        it = st.iter
+        enum = False
+        if isinstance(it, ast.Call) and isinstance(it.func, ast.Name) and it.func.id == 'enumerate' \
+                and len(it.args) == 1 and not it.keywords:
+            enum, it = True, it.args[0]
+        if not (isinstance(it, ast.Name) and it.id == self.self_name):
+            raise Unsupported(st, 'for over %s (only `self` / `enumerate(self)`)' % ast.unparse(st.iter))
+        src = self._iter_of_self()
+        if src is None:
+            raise Unsupported(st, '__iter__ is not `(v for v in self.<list> if v is not <sentinel>)`')
+        attr, keep = src
+        if enum:
+            if not (isinstance(st.target, ast.Tuple) and len(st.target.elts) == 2
+                    and all(isinstance(t, ast.Name) for t in st.target.elts)):
+                raise Unsupported(st, 'target of enumerate')
+            fi, ti = self.bind_local(st.target.elts[0].id, INT, st)
+            fx, tx = self.bind_local(st.target.elts[1].id, VAL, st)
+            if ti != INT or tx != VAL or fi == fx:
+                raise Unsupported(st, 'loop variable types')
+            bind = '(fun i x s => { s with %s := i, %s := x })' % (fi, fx)
+        else:
+            if not isinstance(st.target, ast.Name):
+                raise Unsupported(st, 'loop target')
+            fx, tx = self.bind_local(st.target.id, VAL, st)
+            if tx != VAL:
+                raise Unsupported(st, 'loop variable type')
+            bind = '(fun _ x s => { s with %s := x })' % fx
+        # the loop variables may not be assigned in the body (the counter is the iterator's)
+        names = {t.id for t in (st.target.elts if enum else [st.target])}
+        for n in ast.walk(ast.Module(st.body, [])):
+            if isinstance(n, ast.Name) and n.id in names and isinstance(n.ctx, (ast.Store, ast.Del)):
+                raise Unsupported(n, 'assignment to a loop variable')
+        self.uses_fuel = True
+        if 'L1:lazy-iteration-over-self' not in self.rules:
+            self.rules.append('L1:lazy-iteration-over-self')
+        return '(forLazy (fun s => %s) %s %s\n%s lfuel 0 0)' % (self.sget(attr), keep, bind, self.block(st.body))
 
     def exc_class(self, st: ast.Raise) -> str:
         if st.cause is not None or st.exc is None:
@@ -917,7 +989,9 @@ class MethodTr:
                     nv = b.use(E('(setIdx? %s %s %s)' % (cur, it, self.box(vt, e.typ, st)), LVAL, False))
                     return self.assign_term(b, self.sset({attr: nv}))
                 if self.state[attr] == DICT:
-                    if idx.typ != KEY:
+                    if idx.typ == VAL:
+                        it = b.use(E('(asKeyStore? %s)' % it, KEY, False))
+                    elif idx.typ != KEY:
                         raise Unsupported(st, 'storing under a key of type %s' % idx.typ)
                     if e.typ != INT:
                         raise Unsupported(st, 'a %s stored as a dict value' % e.typ)
@@ -1080,7 +1154,7 @@ def translate_source(src: str, specs: list, module_name: str, rel: str):
         head.append('  %s (lines %s) -> Src.%s.%s' % (spec['qualname'], info['lines'], short, spec['lean_name']))
     out = ('/- GENERATED by harness/py2lean_c11.py (heap mode, compositional) from %s - do not edit.\n'
            '   Translation of the current source text (rules: notes/SRCTIE.md, section 2d):\n%s\n-/\n'
-           'import BoltonsVerif.PyRtC11\n\nnamespace Src.%s\nopen PyHeap PyRtC11\n\n%s\nend Src.%s\n' % (
+           'import BoltonsVerif.PyRtC11\n\nset_option linter.unusedVariables false\n\nnamespace Src.%s\nopen PyHeap PyRtC11\n\n%s\nend Src.%s\n' % (
                rel, '\n'.join(head), short, '\n'.join(parts), short))
     translate_source.last = emitted
     return out, infos
@@ -1294,9 +1368,9 @@ def read_object(mod, obj):
             'comp': obj._compactions, 'cmax': obj._c_max_size}
 
 
-def _reachable_state(mod, rng):
-    s = mod.IndexedSet(range(rng.randrange(0, 14)))
-    for _ in range(rng.randrange(0, 12)):
+def _reachable_state(mod, rng, big=False):
+    s = mod.IndexedSet(range(rng.randrange(20, 60) if big else rng.randrange(0, 14)))
+    for _ in range(rng.randrange(0, 30 if big else 12)):
         try:                                # the class under test may be a broken variant: whatever state it is in
             if len(s) and rng.random() < 0.75:      # when a call raises is a state to start from, too
                 s.remove(rng.choice(list(s)))
@@ -1349,7 +1423,7 @@ def _random_table(rng):
 
 
 def cases_for(sp, mod, rng, quick):
-    n = 700 if quick else 5000
+    n = (700 if sp['py'] == '_add_dead' else 300) if quick else 5000
     out = []
     if sp['py'] == '_add_dead':
         for i in range(n):
@@ -1359,6 +1433,27 @@ def cases_for(sp, mod, rng, quick):
             r = rng.random()
             stop = None if r < 0.7 else start + 1 if r < 0.8 else rng.randrange(-1, top + 2)
             out.append({'self': st, 'args': [('Int', start), ('Option Int', stop)]})
+        return out
+    for i in range(n):
+        r = rng.random()
+        st = _reachable_state(mod, rng, big=(i % 5 == 0)) if r < 0.6 else _random_table(rng)
+        if r >= 0.9:                       # dict and list out of step
+            if st['dict'] and rng.random() < 0.5:
+                st['dict'].pop(rng.randrange(len(st['dict'])))
+            elif st['items']:
+                st['items'][rng.randrange(len(st['items']))] = ('sent',)
+        args = []
+        for p, t in sp['params'].items():
+            if t == 'Key':
+                keys = [k for k, _ in st['dict']] + [v[1] for v in st['items'] if v[0] == 'key']
+                args.append((t, rng.choice(keys) if keys and rng.random() < 0.8 else rng.randrange(0, 200)))
+            elif t == 'Int':
+                args.append((t, rng.randrange(-len(st['items']) - 2, len(st['items']) + 3)))
+            elif t == 'Option Int':
+                args.append((t, None if rng.random() < 0.3 else rng.randrange(-len(st['items']) - 2, len(st['items']) + 3)))
+            else:
+                raise ValueError(t)
+        out.append({'self': st, 'args': args})
     return out
 
 
@@ -1366,7 +1461,7 @@ def call_real(sp, mod, case):
     obj = build_object(mod, case['self'])
     args = [v for _, v in case['args']]
     try:
-        res = ('ok', getattr(obj, sp['py'])(*args))
+        res = ('ok', getattr(obj, sp['py']) if sp.get('property') else getattr(obj, sp['py'])(*args))
     except Exception as e:  # noqa: BLE001
         res = ('exc', type(e).__name__)
     return res, read_object(mod, obj)
